@@ -9,6 +9,7 @@ import (
 	"os"
 	"path/filepath"
 	"strings"
+	"time"
 
 	"src.elv.sh/pkg/cli/histutil"
 	"src.elv.sh/pkg/store"
@@ -70,6 +71,29 @@ func (c *refCursor) get() (entry, bool) {
 	return c.m[c.p], true
 }
 
+// guard is put between NewDedupCursor and the cursor it wraps. It forwards
+// every call and counts the Prev calls made during one move of the outer
+// cursor; when the wrapped cursor never reports end of history the
+// de-duplicating cursor would loop forever, which the guard turns into a
+// panic(guardTrip) that walk() reports as a violation.
+type guard struct {
+	c     histutil.Cursor
+	n     int
+	limit int
+}
+
+type guardTrip struct{}
+
+func (g *guard) Prev() {
+	g.n++
+	if g.n > g.limit {
+		panic(guardTrip{})
+	}
+	g.c.Prev()
+}
+func (g *guard) Next()                       { g.c.Next() }
+func (g *guard) Get() (storedefs.Cmd, error) { return g.c.Get() }
+
 type textPool struct {
 	stems []string
 	tails []string
@@ -115,9 +139,18 @@ type walkStats struct {
 // walk drives one real cursor and the model with the same random moves.
 // foreign, if not nil, is called now and then to let "another session" add a
 // command to the shared database in the middle of the walk.
-func walk(c *mon.Case, variant string, cur histutil.Cursor, ref *refCursor, prefix string, dedup bool, nsession int, foreign func(), st *walkStats, ctx map[string]any) bool {
+func walk(c *mon.Case, variant string, cur histutil.Cursor, ref *refCursor, prefix string, dedup bool, gd *guard, foreign func(), st *walkStats, ctx map[string]any) (ok bool) {
 	r := c.Rand
 	st.walks++
+	defer func() {
+		if x := recover(); x != nil {
+			if _, trip := x.(guardTrip); !trip {
+				panic(x)
+			}
+			c.Violation(variant+":dedup:prev-does-not-terminate", fmt.Sprintf("one Prev() of the de-duplicating cursor made more than %d Prev() calls on the wrapped cursor without reaching end of history (prefix %s)", gd.limit, mon.Q(prefix)), ctx)
+			ok = false
+		}
+	}()
 	check := func(moves []string) bool {
 		got, err := cur.Get()
 		want, ok := ref.get()
@@ -179,6 +212,9 @@ func walk(c *mon.Case, variant string, cur histutil.Cursor, ref *refCursor, pref
 			moves = append(moves, "(other-session-add)")
 		}
 		before := ref.p
+		if gd != nil {
+			gd.n = 0
+		}
 		if back {
 			cur.Prev()
 			ref.prev()
@@ -205,7 +241,6 @@ func walk(c *mon.Case, variant string, cur histutil.Cursor, ref *refCursor, pref
 			st.retrace++
 		}
 	}
-	_ = nsession
 	return true
 }
 
@@ -346,14 +381,16 @@ func runHybrid(c *mon.Case) {
 		dedup := r.Intn(2) == 0
 		ref := newRefCursor(view, prefix, dedup)
 		cur := hs.Cursor(prefix)
+		var gd *guard
 		if dedup {
-			cur = histutil.NewDedupCursor(cur)
+			gd = &guard{c: cur, limit: 4*len(view) + 20}
+			cur = histutil.NewDedupCursor(gd)
 		}
 		var f func()
 		if r.Intn(2) == 0 {
 			f = foreign
 		}
-		if !walk(c, "hybrid", cur, ref, prefix, dedup, nsess, f, st, ctx) {
+		if !walk(c, "hybrid", cur, ref, prefix, dedup, gd, f, st, ctx) {
 			return
 		}
 		// classification for the evidence
@@ -457,10 +494,12 @@ func runMem(c *mon.Case) {
 		dedup := r.Intn(2) == 0
 		ref := newRefCursor(view, prefix, dedup)
 		cur := s.Cursor(prefix)
+		var gd *guard
 		if dedup {
-			cur = histutil.NewDedupCursor(cur)
+			gd = &guard{c: cur, limit: 4*len(view) + 20}
+			cur = histutil.NewDedupCursor(gd)
 		}
-		if !walk(c, variant, cur, ref, prefix, dedup, nadd, nil, st, ctx) {
+		if !walk(c, variant, cur, ref, prefix, dedup, gd, nil, st, ctx) {
 			return
 		}
 		if dedup && len(ref.m) < countMatches(view, prefix) {
@@ -485,8 +524,8 @@ func Spec() *mon.Spec {
 			"the persistent store itself is assumed to follow refstore (checked by C24); a disagreement while building the history is counted inconclusive here",
 		},
 		Phases: []mon.Phase{
-			{Name: "hybrid", Quick: 2500, Thorough: 40000, Run: runHybrid},
-			{Name: "mem", Quick: 1000, Thorough: 10000, Run: runMem},
+			{Name: "hybrid", Quick: 2500, Thorough: 40000, Run: runHybrid, Timeout: 60 * time.Second},
+			{Name: "mem", Quick: 1000, Thorough: 10000, Run: runMem, Timeout: 60 * time.Second},
 		},
 		Floors: map[string]int{
 			"distinct_nontrivial": 500, "walks": 10000, "moves": 300000, "bumps_past_oldest": 10000, "bumps_past_newest": 10000,
